@@ -29,6 +29,7 @@ class Findings:
     def __init__(self, jd):
         self.jd = jd
         self.items = []      # (prop_obs, text, op index, known_class or None)
+        self.excused = set()
         self.stop_at = None
         self.walk()
 
@@ -103,7 +104,15 @@ class Findings:
             known = None
             if kind in DEFERRED and dirty > 0:
                 known = "deferred-entry-writeback"
-            elif self.op_known:
+                # it only excuses the issue while a handle is dirty: remember it as excused, not as seen
+                if i not in seen:
+                    self.excused.add(i)
+                    self.add("wf", "structural invariant %s violated after %s" % (i, short(o.line)), oi, known)
+                continue
+            elif kind in DEFERRED and i in self.excused and i not in seen:
+                # the handles were flushed/dropped and the issue is still there
+                new = True
+            if self.op_known and known is None:
                 known = self.op_known
             elif kind == "DotDot" and (not new or (name == "rename" and o.kind == "ok")):
                 known = "stale-dotdot-after-dir-move"
